@@ -8,6 +8,7 @@ From V Require Import Base.Bytes Base.Res Gen.Tables Model.Escape Spec.EscapeSpe
 From V Require Import Model.Anchor.
 From V Require Import Model.Ast Model.Footnotes Spec.FootnoteSpec.
 From V Require Import Model.FrontMatter Spec.FrontMatterSpec.
+From V Require Import Model.Arena.
 Extraction Language OCaml.
 Set Extraction KeepSingleton.
 
@@ -68,4 +69,11 @@ Extraction "model.ml"
   FrontMatterSpec.lf_count
   FrontMatterSpec.spec_line_count
   FrontMatterSpec.rest_has_bom
+  Arena.init
+  Arena.trace
+  Arena.run
+  Arena.dump
+  Arena.heap_of_dump
+  Arena.wf_b
+  Arena.acyclic_b
 .
